@@ -13,6 +13,7 @@ RULE = (
     "from earlier ones (operands chosen by drawn indices): subset with empty/full/overlapping masks, subset of subset, combine, concat, invert, "
     "get_plate, observed/unobserved split, to_screen, unique-condition filter, and in-place changes of the parent between them (set_observed on a plate or on arbitrary unobserved rows, Plate.merge of plates of equal or different observation status, so plates may be partly observed); a second screen for the cross-parent refusal; random int columns for "
     "select_unique_zipped_numpy_arrays vs a dict reference; once per run the unique filter on every three-row view [X, Y, X] of a full two-slot design (2 samples x (T+1)^2 conditions, T=5 / 7) and, for small screens, on every view of three rows. Non-trivial = history contains a nested subset and a union and has depth>=3. distinct = distinct case JSON."
+    ' Also: views at id-width boundaries (highest id 2**8-1, 2**16-1 and neighbours, with controls).'
 )
 ASSUMPTIONS = [
     "the model of a view is the sorted list of parent row indices; ids of a materialised screen are not asserted (Screen.combine/to_screen document that ids may change)",
@@ -94,6 +95,11 @@ def exhaustive(tier):
     # the unique filter on every three-row view [X, Y, X] of a full two-slot design (ids 0..T-1 and control, two samples): views
     # whose ids have gaps, with a replicate of X after another condition Y
     yield {"kind": "xyx", "T": 5 if tier == "quick" else 7}
+    # views of screens whose highest treatment (or sample) id sits at a storage-width boundary (2**8, 2**16 ids, one less, one more):
+    # conditions that differ only in "highest id" versus "control" in one slot
+    for n in [255, 256, 257, 65536] + ([65535, 65537, 32768, 32767] if tier != "quick" else []):
+        for axis in ("treatments", "samples"):
+            yield {"kind": "width", "axis": axis, "n": n}
 
 
 def _check_xyx(case):
@@ -125,9 +131,45 @@ def _check_xyx(case):
     return {"nontrivial": True, "labels": ["xyx-views"], "counts": {"xyx_views": checked}}
 
 
+def _check_width(case):
+    from batchie.data import Screen, filter_dataset_to_unique_treatments
+
+    n, axis = case["n"], case["axis"]
+    nt, ns = (n, 3) if axis == "treatments" else (4, n)
+    width = len(str(max(nt, ns)))
+    tname = lambda t: "ctl" if t < 0 else "t%0*d" % (width, t)
+    sname = lambda k: "s%0*d" % (width, k)
+    top_t, top_s = nt - 1, ns - 1
+    rows = [(k % ns, t, -1) for k, t in enumerate(range(nt))] + [(k, 0, -1) for k in range(ns)]  # every id occurs
+    base = len(rows)
+    extras = []
+    for s_ in (0, top_s):
+        for a_ in (0, 1, top_t - 1 if top_t >= 2 else 0):
+            extras += [(s_, a_, top_t), (s_, a_, -1), (s_, top_t, a_), (s_, -1, a_)]
+        extras += [(s_, top_t, -1), (s_, -1, top_t), (s_, top_t, top_t), (s_, -1, -1)]
+    rows += extras + extras[:5]  # (the first five once more: replicates)
+    arr = np.array(rows)
+    screen = Screen(treatment_names=np.array([[tname(a_), tname(b_)] for _, a_, b_ in rows]), treatment_doses=np.where(arr[:, 1:] < 0, 0.0, 1.0), observations=np.zeros(len(rows)), observation_mask=np.zeros(len(rows), dtype=bool), sample_names=np.array([sname(k) for k, _, _ in rows]), plate_names=np.array(["p%d" % (i % 3) for i in range(len(rows))]), control_treatment_name="ctl")
+    sid, tid = np.asarray(screen.sample_ids), np.asarray(screen.treatment_ids)
+    require(int(tid.max()) == top_t and int(sid.max()) == top_s and int(tid.min()) == -1, "harness", "unexpected id range of the boundary screen")
+    key = lambda i: (int(sid[i]),) + tuple(int(x) for x in tid[i])
+    ext = list(range(base, len(rows)))
+    views = [ext, list(range(len(rows)))] + [[i, j] for i in ext for j in ext if i < j] + [[i, j, k_] for i, j, k_ in zip(ext, ext[3:], ext[7:])]
+    for v in views:
+        sel = np.zeros(len(rows), dtype=bool)
+        sel[v] = True
+        got = np.where(np.asarray(filter_dataset_to_unique_treatments(screen.subset(sel)).selection_vector))[0].tolist()
+        ks = [key(i) for i in got]
+        want = {key(i) for i in v}
+        require(set(got) <= set(v) and len(ks) == len(set(ks)) and set(ks) == want, "unique.width_boundary", lambda: "%d %s: the unique filter on a view of %d experiments with %d distinct conditions keeps %d experiments with conditions %r%s" % (n, axis, len(v), len(want), len(got), ks[:6], "" if len(v) > 6 else " (the view's conditions: %r)" % sorted(want)))
+    return {"nontrivial": True, "labels": ["width-boundary:%s" % axis], "counts": {"width_views": len(views)}}
+
+
 def check_case(case):
     if case.get("kind") == "xyx":
         return _check_xyx(case)
+    if case.get("kind") == "width":
+        return _check_width(case)
     from batchie.common import select_unique_zipped_numpy_arrays
     from batchie.data import ScreenSubset, filter_dataset_to_unique_treatments
 
